@@ -244,6 +244,10 @@ impl<S: Send, T: ParallelIterator<Item = S>> ParallelIterator for ProgressBarIte
         let consumer1 = ProgressConsumer::new(consumer, self.progress.clone());
         self.it.drive_unindexed(consumer1)
     }
+
+    fn opt_len(&self) -> Option<usize> {
+        self.it.opt_len()
+    }
 }
 
 #[cfg(test)]
